@@ -101,6 +101,14 @@ module Nat =
 
   let ltb n0 m =
     leb (S n0) m
+
+  (** val even : nat -> bool **)
+
+  let rec even = function
+  | O -> true
+  | S n1 -> (match n1 with
+             | O -> false
+             | S n' -> even n')
  end
 
 (** val hd : 'a1 -> 'a1 list -> 'a1 **)
@@ -901,7 +909,7 @@ let rec bsimple = function
 | ENone -> true
 | EOp (o0, es) ->
   (match o0 with
-   | OSeq _ -> true
+   | OSeq id -> Nat.even id
    | OGetAttr _ ->
      (match es with
       | [] -> false
